@@ -3,6 +3,7 @@
 Everything here is mechanical; no rule lives in this file.
 """
 import json
+import os
 import re
 import sys
 from collections import defaultdict, deque
@@ -358,6 +359,10 @@ class Facts:
         self.insts_of = defaultdict(list)  # fn name -> [inst ids]
         for i in self.instances:
             self.insts_of[i['fn']].append(i['id'])
+        # functions the rule tables do not know (split off by a refactoring) are made transparent
+        if os.environ.get('VF_NO_INLINE') != '1':
+            import inline
+            inline.normalise(self)
 
     def fatfs_fns(self):
         return [f for f in self.fns.values() if f.crate == 'fatfs']
